@@ -41,7 +41,7 @@ pub fn tokens_to_line(tokens: &Tokens) -> String {
 
 /// Trims white space around one command of a list, but keeps a trailing
 /// white-space character that is escaped by a backslash (`ls a\ `).
-fn trim_cmd(token: &str) -> String {
+pub fn trim_cmd(token: &str) -> String {
     let t = token.trim_start();
     let trimmed = t.trim_end();
     if trimmed.len() < t.len() {
